@@ -1,6 +1,7 @@
 import Driver.Common
 import Model.Helpers
-open Lean Drv Helpers
+import Model.HelpersBuild
+open Lean Drv Helpers HelpersBuild
 
 def optFloats (j : Json) : Except String (List (Option Float)) := do
   let a ← asArr j
@@ -15,6 +16,7 @@ def errJ : Option PwErr → Json
   | some .innerNone => jStr "BiogemeError:innerNone"
   | some .indexError => jStr "IndexError"
   | some .badBetas => jStr "BiogemeError:badBetas"
+  | some .emptySum => jStr "BiogemeError:emptySum"
 
 def lookupF (l : List (String × Float)) (k : String) : Float :=
   match l.lookup k with
@@ -45,6 +47,128 @@ def parseNest (j : Json) : Except String (Nest Float) := do
   let alts ← intList (← j.getObjVal? "alts")
   pure { mu := mu, alts := alts }
 
+
+/-! ### the formula a helper built: real signature text -> tree, compared node by node with the
+tree built by the Lean model of the helper, and evaluated with the engine's node semantics -/
+
+/-- a leaf handed to a helper: {"var": name} | {"beta": name} | {"num": bits} -/
+def parseLeaf (j : Json) : Except String (HE Float) :=
+  match j.getObjVal? "var", j.getObjVal? "beta", j.getObjVal? "num" with
+  | .ok v, _, _ => do pure (.var (← asStr v))
+  | _, .ok b, _ => do pure (.beta (← asStr b))
+  | _, _, .ok n => do pure (.num (← asFloat n))
+  | _, _, _ => throw "bad-op"
+
+def leafList (j : Json) : Except String (List (HE Float)) := do
+  (← asArr j).toList.mapM parseLeaf
+
+def optStrs (j : Json) : Except String (List (Option String)) := do
+  (← asArr j).toList.mapM fun e => match e with
+    | Json.null => pure none
+    | v => do pure (some (← asStr v))
+
+def namePairs (j : Json) : Except String (List (String × Float)) := do
+  (← asArr j).toList.mapM fun e => do
+    let a ← asArr e
+    match a.toList with
+    | [n, v] => pure (← asStr n, ← asFloat v)
+    | _ => throw "bad-op"
+
+def bitsEq (a b : Float) : Bool := a.toBits == b.toBits
+
+/-- the tree the Lean model of the helper builds for this request -/
+def builtTree (j : Json) : Except String (HE Float) := do
+  let h ← getStr j "helper"
+  match h with
+  | "pw_var" =>
+    let x ← parseLeaf (← j.getObjVal? "x")
+    let ths ← optFloats (← j.getObjVal? "ths")
+    let i ← getNat j "index"
+    match (pwVarsE x ths)[i]? with
+    | some t => pure t
+    | none => throw "no-such-variable"
+  | "pw_formula" =>
+    let x ← parseLeaf (← j.getObjVal? "x")
+    let ths ← optFloats (← j.getObjVal? "ths")
+    pure (pwFormulaE x ths (← leafList (← j.getObjVal? "betas")))
+  | "pw_formula_default" =>
+    -- betas=None: the parameters are created by the helper, named after Python's str of the thresholds
+    let v ← getStr j "var"
+    let ths ← optFloats (← j.getObjVal? "ths")
+    let strs ← optStrs (← j.getObjVal? "th_strs")
+    pure (pwFormulaE (.var v) ths ((pwBetaNames v strs).map .beta))
+  | "pw_asvar" =>
+    let x ← parseLeaf (← j.getObjVal? "x")
+    let ths ← optFloats (← j.getObjVal? "ths")
+    pure (pwAsVariableE x ths (← leafList (← j.getObjVal? "betas")))
+  | "pw_asvar_default" =>
+    let v ← getStr j "var"
+    let ths ← optFloats (← j.getObjVal? "ths")
+    let strs ← optStrs (← j.getObjVal? "th_strs")
+    pure (pwAsVariableE (.var v) ths ((pwBetaNames v strs.tail).map .beta))
+  | "boxcox" =>
+    pure (boxcoxE (← parseLeaf (← j.getObjVal? "x")) (← parseLeaf (← j.getObjVal? "l")))
+  | "dist" =>
+    let name ← getStr j "name"
+    let a ← leafList (← j.getObjVal? "args")
+    match name, a with
+    | "normalpdf", [x, mu, s] => pure (normalpdfE x mu s)
+    | "lognormalpdf", [x, mu, s] => pure (lognormalpdfE x mu s)
+    | "uniformpdf", [x, a, b] => pure (uniformpdfE x a b)
+    | "triangularpdf", [x, a, b, c] => pure (triangularpdfE x a b c)
+    | "logisticcdf", [x, mu, s] => pure (logisticcdfE x mu s)
+    | "loglikreg", [y, m, s] => pure (loglikRegE y m s)
+    | "likreg", [y, m, s] => pure (likRegE y m s)
+    | _, _ => throw "bad-op"
+  | "seg" =>
+    let beta ← getStr j "beta"
+    let specs ← (← getArr j "specs").toList.mapM parseSpec
+    pure (segmentedBetaE beta specs)
+  | "segcode" =>
+    let beta ← getStr j "beta"
+    let specs ← (← getArr j "specs").toList.mapM parseSpec
+    pure (segmentedCodeE beta specs)
+  | _ => throw "bad-op"
+
+def ctorName : Expr.Kind → String
+  | .neg => "neg" | .exp => "exp" | .log => "log" | .plus => "plus" | .minus => "minus" | .times => "times"
+  | .divide => "divide" | .power => "power" | .bmin => "bmin" | .bmax => "bmax" | .eq => "eq" | .ne => "ne"
+  | .le => "le" | .ge => "ge" | .lt => "lt" | .gt => "gt" | _ => "unsupported"
+
+/-- Lean syntax of a tree (used by the translator that regenerates Generated/Helpers.lean); a literal
+is written `NUM<bits>`: the translator puts the decimal text of the signature in its place -/
+partial def renderHE : HE Float → String
+  | .num v => s!"(.num NUM{v.toBits})"
+  | .var n => s!"(.var {n.quote})"
+  | .beta n => s!"(.beta {n.quote})"
+  | .un k a => s!"(.un .{ctorName k} {renderHE a})"
+  | .powc a e => s!"(.powc {renderHE a} NUM{e.toBits})"
+  | .bin k a b => s!"(.bin .{ctorName k} {renderHE a} {renderHE b})"
+  | .elem key ks bs => s!"(.elem {renderHE key} {ks} [{", ".intercalate (bs.map renderHE)}])"
+  | .msum ts => s!"(.msum [{", ".intercalate (ts.map renderHE)}])"
+
+def treeOp (j : Json) : Except String Json := do
+  let ls ← strList (← j.getObjVal? "text")
+  let tbl ← namePairs (← j.getObjVal? "nums")
+  let numOf : List Char → Option Float := fun s => tbl.lookup (String.ofList s)
+  let betas ← namePairs (← j.getObjVal? "benv")
+  let rows ← (← getArr j "rows").toList.mapM namePairs
+  let built ← builtTree j
+  let envs : List (Expr.Env Float) := rows.map fun r => { beta := lookupF betas, var := lookupF r }
+  let builtVals := envs.map fun e => evalT e built
+  match Sig.mapMOpt (Sig.parseLine numOf) (ls.map String.toList) with
+  | none => pure (Json.mkObj [("read", jBool false), ("built_vals", jFloats builtVals)])
+  | some lines =>
+    match ofLines [] lines with
+    | none => pure (Json.mkObj [("read", jBool false), ("built_vals", jFloats builtVals)])
+    | some t =>
+      let rendered : List (String × Json) := match j.getObjVal? "render" with
+        | .ok (Json.bool true) => [("render", jStr (renderHE t))]
+        | _ => []
+      pure (Json.mkObj ([("read", jBool true), ("same", jBool (HE.same bitsEq t built)),
+        ("size", jNat t.size), ("built_size", jNat built.size),
+        ("text_vals", jFloats (envs.map fun e => evalT e t)), ("built_vals", jFloats builtVals)] ++ rendered))
+
 def handle (j : Json) : Except String Json := do
   let op ← getStr j "op"
   match op with
@@ -63,6 +187,13 @@ def handle (j : Json) : Except String Json := do
     let bs ← floatList (← j.getObjVal? "betas")
     pure (Json.mkObj [("value", fbits (pwAsVariable x ths bs)),
                       ("as_coded", fbits (pwAsVariableAsCoded x ths bs))])
+  | "pw_asvar_check" =>
+    let ths ← optFloats (← j.getObjVal? "ths")
+    let n : Option Nat ← match j.getObjVal? "n_betas" with
+      | .ok Json.null => pure none
+      | .ok v => do pure (some (← asNat v))
+      | .error _ => throw "bad-op"
+    pure (Json.mkObj [("err", errJ (pwAsVariableCheck ths n))])
   | "pw_function" =>
     let x ← getFloat j "x"
     let ths ← optFloats (← j.getObjVal? "ths")
@@ -83,6 +214,7 @@ def handle (j : Json) : Except String Json := do
     | "triangularpdf", [x, a, b, c] => pure (Json.mkObj [("value", fbits (triangularpdf x a b c))])
     | "logisticcdf", [x, mu, s] => pure (Json.mkObj [("value", fbits (logisticcdf x mu s))])
     | "loglikreg", [y, m, s] => pure (Json.mkObj [("value", fbits (loglikReg y m s))])
+    | "likreg", [y, m, s] => pure (Json.mkObj [("value", fbits (likReg y m s))])
     | _, _ => throw "bad-op"
   | "seg" =>
     let beta ← getStr j "beta"
@@ -101,6 +233,17 @@ def handle (j : Json) : Except String Json := do
     let pref ← getStr j "prefix"
     pure (Json.mkObj [("valid", jBool (specs.all SegSpec.valid)), ("value", fbits v), ("code_value", cv),
                       ("code", jStr (renderCode beta init lb ub status pref specs))])
+  | "dist_check" =>
+    -- does the helper raise ValueError for these literal parameters?
+    let name ← getStr j "name"
+    let a ← floatList (← j.getObjVal? "args")
+    match name, a with
+    | "normalpdf", [_, s] | "logisticcdf", [_, s] | "lognormalpdf", [_, s] => pure (Json.mkObj [("raises", jBool (scaleCheck s))])
+    | "lognormalpdf_arg", [x, _, s] => pure (Json.mkObj [("raises", jBool (argCheck x || scaleCheck s))])
+    | "uniformpdf", [a, b] => pure (Json.mkObj [("raises", jBool (uniformCheck a b))])
+    | "triangularpdf", [a, b, c] => pure (Json.mkObj [("raises", jBool (triCheck a b c))])
+    | _, _ => throw "bad-op"
+  | "tree" => treeOp j
   | "corr" =>
     let mu ← getFloat j "mu"
     let cs ← intList (← j.getObjVal? "choice_set")
